@@ -26,7 +26,9 @@ FLOORS = {
         "T1": 13,
         "T2": 3,
         "T5": 2,
-        "T10": 1
+        "T10": 1,
+        "T14": 2,
+        "T15": 3
     },
     "C05": {
         "S1": 1,
@@ -111,7 +113,8 @@ FLOORS = {
         "CU4": 1,
         "BW1": 6,
         "LP1": 30,
-        "LP2": 1
+        "LP2": 1,
+        "NC1": 10
     },
     "C18": {
         "H1": 2,
@@ -701,6 +704,8 @@ def c17(prog, rep):
     LP.rule_lp2(prog, rep, PARSER_UNITS)
     LP.rule_lp3(prog, rep, PARSER_UNITS)
     LP.rule_lp4(prog, rep, PARSER_UNITS)
+    from . import nullrules as NR
+    NR.rule_nc1(prog, rep, PARSER_UNITS)
     from . import dimrules as DM
     DM.rule_dim1(prog, rep, PARSER_UNITS)
     from . import strrules as SR
